@@ -2,6 +2,8 @@
 # seed_check.sh <PROP> <seed dir> : apply an (already confirmed) seeded change to /repo, run the quick check, undo.
 # CAPTURE=1: keep the shrunk case that exposed the change as regress/<PROP>/<seed>.json (the regression tier).
 export GOFLAGS=-mod=mod GOPROXY=off GOSUMDB=off GOTOOLCHAIN=local
+# every changed tree adds ~0.5-1 GB of build cache: keep it bounded (the disk filled up once)
+[ "$(du -sm ${GOCACHE:-$HOME/.cache/go-build} 2>/dev/null | cut -f1)" -gt 30000 ] 2>/dev/null && go clean -cache
 prop=$1; d=$(realpath $2)
 cd /verif
 [ -n "$(git -C /repo status --short)" ] && { echo "repo not clean"; exit 9; }
